@@ -197,13 +197,20 @@ class Bicomplex(object):
 
     def __div__(self, other):  # python 2
         """elementwise division"""
-        return self * other ** -1  # np.exp(-np.log(other))
+        other = self._coerce(other)
+        return self * other._inverse()
+
+    def _inverse(self):
+        """1 / (z1 + j z2) = (z1 - j z2) / (z1**2 + z2**2)"""
+        z1, z2 = self.z1, self.z2
+        den = z1 * z1 + z2 * z2
+        return Bicomplex(z1 / den, -z2 / den)
 
     __truediv__ = __div__  # python 3
 
     def __rdiv__(self, other):  # python 2
         """elementwise division"""
-        return other * self ** -1
+        return other * self._inverse()
 
     __rtruediv__ = __rdiv__  # python3
 
@@ -219,8 +226,21 @@ class Bicomplex(object):
         z02 = 0.5 * (z1 + 1j * z2) ** other
         return Bicomplex(z01 + z02, (z01 - z02) * 1j)
 
+    def _pow_integer(self, n):
+        """Integer power by repeated multiplication (no logarithm, exact for any sign of the base)"""
+        base = self if n >= 0 else self._inverse()
+        n = abs(n)
+        out = Bicomplex(np.ones(self.shape), np.zeros(self.shape))
+        while n > 0:
+            if n % 2 == 1:
+                out = out * base
+            base = base * base
+            n //= 2
+        return out
+
     def __pow__(self, other):
-        # TODO: Check correctness
+        if isinstance(other, (int, np.integer)):
+            return self._pow_integer(int(other))
         out = (self.log() * other).exp()
         non_invertible = np.abs(self.mod_c()) < 1e-15
         if non_invertible.any():
